@@ -158,6 +158,8 @@ func rawInputs(dir string) []Input {
 	add("objstm4", bytesObjStm(rawpdf.MarkerDoc([]rawpdf.PageSpec{
 		{Marker: "O-1", Rotate: -1}, {Marker: "O-2", Rotate: 90}, {Marker: "O-3", Rotate: -1, Streams: 2}, {Marker: "O-4", Rotate: -1},
 	}, rawpdf.MarkerOpts{Fanout: 2, InfoDict: "/Title (in object stream)"})))
+	// every inheritable attribute sits on intermediate page tree nodes
+	add("nested5", nestedDoc(5, "N").Bytes())
 	// free objects, an unreferenced object, an indirect /Length, stream data starting with LF / ending with CR
 	{
 		d := rawpdf.MarkerDoc([]rawpdf.PageSpec{{Marker: "F-1", Rotate: -1}, {Marker: "F-2", Rotate: -1}}, rawpdf.MarkerOpts{InfoDict: "/Title (free)"})
